@@ -292,6 +292,7 @@ func (e *Engine) verify(key string, c *Contract) *Unit {
 	st := &State{vars: map[types.Object]Val{}, heap: map[string]Term{}, held: map[string]bool{}, ghost: map[string]Val{}}
 	st.frontier = u.fresh("frontier", SInt)
 	st.assume(tLt("0", st.frontier))
+	u.root().frontier0 = st.frontier
 	u.clockTerm(st) // one ghost clock shared by all paths
 	env := &specEnv{u: u, st: st, vars: map[string]Val{}, pkg: p.Types, where: c.Where}
 	bindParam := func(id *ast.Ident, T types.Type, i int) {
@@ -435,7 +436,15 @@ func (e *Engine) verify(key string, c *Contract) *Unit {
 			genv := &specEnv{u: u, st: r.st, old: r.st.old, vars: penv.vars, pkg: p.Types, where: c.Where}
 			for _, m := range c.Modifies {
 				if ce, ok := m.Expr.(*ast.CallExpr); ok {
-					if id, ok := ce.Fun.(*ast.Ident); ok && e.cs.Ghosts[id.Name] != nil && strings.HasPrefix(id.Name, "g_") {
+					defined := false
+					if id, ok := ce.Fun.(*ast.Ident); ok {
+						for _, ge := range c.GhostEns {
+							if strings.Contains(ge.Text, id.Name+"(") {
+								defined = true
+							}
+						}
+					}
+					if id, ok := ce.Fun.(*ast.Ident); ok && defined && e.cs.Ghosts[id.Name] != nil && strings.HasPrefix(id.Name, "g_") {
 						if err := u.havocTarget(r.st, genv, m); err != nil {
 							u.reject("contract error: %v", err)
 						}
